@@ -1,11 +1,298 @@
-import HydroVerif.Model.C11
+/-
+C11 — property theorems (only). Model: `HydroVerif/Model/C11.lean` (kernel after the `fix:` commit: the walk from
+cell `i` adds `to_accumulate[i]`); helper lemmas: `Lemmas/C11.lean` (generic `[Add α]`), `Lemmas/C11Sum.lean`.
+
+Vocabulary. `g : FlowGrid` is what the kernel receives (dimensions, the 9 flow-direction codes, the data).
+`WF g`: `ncols > 0` and the data has `nrows*ncols` entries (what the wrapper guarantees). `dn g c` is the downstream
+cell of `c` (negative: `c` drains nowhere — sink, off-grid exit, code not in the table), `iterDn g k c` is `k` downstream
+steps. `Rep n a A`: the buffer `a` has `n` entries holding the values `A 0 .. A (n-1)`. `drainsThrough g c`: the cells
+whose downstream chain passes through `c`, `c` included (upstream closure); `directUp g c`: the cells whose
+downstream cell is `c`. `NoCycle g`: no cell comes back to itself after `m ≥ 1` downstream steps.
+`AllTerminate g fuel`: every walk reaches a cell that drains nowhere within `fuel` iterations (`fuel = cap + 1`).
+
+All statements hold for every grid size, every code table, every flow-direction content, every field, every
+no-data value; value types: any type with `+` (the fold statements, valid verbatim for IEEE doubles) or any
+commutative monoid (the sum statements: exact arithmetic).
+-/
+import HydroVerif.Lemmas.C11Sum
+
+set_option linter.unusedSectionVars false
 
 namespace HydroVerif.C11
+open HydroVerif.C07
 
-/-- a limit below one is rejected before anything is written -/
-theorem cAccumulate_badMaxCells {α : Type} [Add α] (g : FlowGrid) (m : Int) (nodata : α) (field acc0 : Array α)
-    (h : m < 1) : cAccumulate g m nodata field acc0 = .error .badMaxCells := by
-  unfold cAccumulate
-  rw [if_pos h]
+/-! ### 1. the call terminates without error — any flow directions (cycles included), any accepted limit -/
+
+/-- `grid.accumulate` never fails and returns one value per cell, whatever the flow directions and the limit
+(default `-1`, or any limit `≥ 1`): grids with cycles or a reduced `max_accumulated_cells` terminate without error.
+(Termination itself is the totality of the model: the `while` loop is structural recursion on the iterations left.) -/
+theorem accumulate_total {α : Type} [Add α] {g : FlowGrid} (hg : WF g) (hr : 1 ≤ g.nrows) {m : Int}
+    (hm : m = -1 ∨ 1 ≤ m) (nodata : α) {field : Array α} (hf : field.size = g.ntot.toNat) :
+    ∃ acc, accumulate g m nodata field = .ok acc ∧ acc.size = g.ntot.toNat := by
+  have hcap : 1 ≤ capOf g m := by
+    unfold capOf
+    split
+    · have := hg.ncols_pos
+      nlinarith
+    · omega
+  have hF : Rep g.ntot.toNat field (fun j => field[j]?.getD nodata) := hf ▸ rep_self field nodata
+  obtain ⟨acc, h1, h2⟩ := accumulate_rep hg hr hcap nodata hF
+  exact ⟨acc, h1, h2.1⟩
+
+/-- same for the default unit field (`to_accumulate=None`) -/
+theorem accumulateUnit_total {α : Type} [Add α] [OfNat α 1] {g : FlowGrid} (hg : WF g) (hr : 1 ≤ g.nrows) {m : Int}
+    (hm : m = -1 ∨ 1 ≤ m) (nodata : α) :
+    ∃ acc, accumulateUnit g m nodata = .ok acc ∧ acc.size = g.ntot.toNat := by
+  unfold accumulateUnit
+  exact accumulate_total hg hr hm nodata (by rw [Array.size_replicate, hg.size_eq])
+
+/-- a limit below one (other than the `-1` that selects the default) is rejected -/
+theorem accumulate_rejects_limit {α : Type} [Add α] (g : FlowGrid) {m : Int} (h1 : m < 1) (h2 : m ≠ -1)
+    (nodata : α) (field : Array α) : accumulate g m nodata field = .error .badMaxCells := by
+  unfold accumulate cAccumulate capOf
+  rw [if_neg h2, if_pos h1]
+
+/-- the kernel on arbitrary well-shaped buffers (accumulation buffer not necessarily a copy of the field):
+no error once `max_accumulated_cells ≥ 1` and `nrows ≥ 1` -/
+theorem cAccumulate_total {α : Type} [Add α] {g : FlowGrid} (hg : WF g) (hr : 1 ≤ g.nrows) {m : Int} (hm : 1 ≤ m)
+    (nodata : α) {field acc0 : Array α} (hf : field.size = g.ntot.toNat) (ha : acc0.size = g.ntot.toNat) :
+    ∃ acc, cAccumulate g m nodata field acc0 = .ok acc ∧ acc.size = g.ntot.toNat := by
+  obtain ⟨acc, h1, h2⟩ := cAccumulate_spec hg hm hr (nodata := nodata)
+    (hf ▸ rep_self field nodata) (ha ▸ rep_self acc0 nodata)
+  exact ⟨acc, h1, h2.1⟩
+
+/-! ### 2. no cycle ⇔ every walk ends before the default limit -/
+
+/-- on a grid without cycles every walk reaches a terminal cell within the iterations the limit allows, as
+soon as `limit + 1 ≥ nrows*ncols` — in particular for the default limit `nrows*ncols` -/
+theorem allTerminate_of_noCycle_cap {g : FlowGrid} (hg : WF g) (hnc : NoCycle g) {m : Int}
+    (hm : g.ntot ≤ capOf g m + 1) : AllTerminate g (fuelOf (capOf g m)) :=
+  allTerminate_of_noCycle hg hnc (by unfold fuelOf; omega)
+
+theorem allTerminate_default {g : FlowGrid} (hg : WF g) (hnc : NoCycle g) :
+    AllTerminate g (fuelOf (capOf g (-1))) :=
+  allTerminate_of_noCycle_cap hg hnc (by unfold capOf FlowGrid.ntot; simp)
+
+/-- conversely, if every walk ends then there is no cycle: the hypothesis `AllTerminate` of the theorems
+below is exactly "acyclic" once the limit is at least `nrows*ncols - 1` -/
+theorem noCycle_iff_allTerminate {g : FlowGrid} (hg : WF g) {fuel : Nat} (hfuel : g.ntot.toNat ≤ fuel) :
+    NoCycle g ↔ AllTerminate g fuel :=
+  ⟨fun h => allTerminate_of_noCycle hg h hfuel, noCycle_of_allTerminate⟩
+
+/-! ### 3. cells that drain nowhere carry the no-data value -/
+
+/-- sinks (`-2`), off-grid exits and codes not in the table (`-1`) end with the no-data value -/
+theorem accumulate_terminal {α : Type} [Add α] {g : FlowGrid} (hg : WF g) (hr : 1 ≤ g.nrows) {m : Int}
+    (hm : 1 ≤ capOf g m) (hT : AllTerminate g (fuelOf (capOf g m))) (nodata : α) {field : Array α} {F : Nat → α}
+    (hF : Rep g.ntot.toNat field F) {acc : Array α} (hacc : accumulate g m nodata field = .ok acc)
+    {c : Int} (hv : validCell g.nrows g.ncols c = true) (hd : dn g c < 0) :
+    acc[c.toNat]? = some nodata := by
+  obtain ⟨acc', h1, h2⟩ := accumulate_rep hg hr hm nodata hF
+  rw [hacc] at h1
+  cases h1
+  rw [h2.2 _ (lt_of_valid hv).1, final_value hT nodata F F hv, if_pos hd]
+
+/-- flow direction 0 is a sink: the cell drains nowhere (`-2`) -/
+theorem dn_sink {g : FlowGrid} (hg : WF g) {c : Int} (hv : validCell g.nrows g.ncols c = true)
+    (hfd : g.flowdir[c.toNat]? = some 0) : dn g c = -2 := by
+  unfold dn downstream
+  rw [if_pos hv, hfd]
+  rfl
+
+/-- a non-zero value that is not one of the codes drains nowhere (`-1`) -/
+theorem dn_unknown_code {g : FlowGrid} (hg : WF g) {c : Int} (hv : validCell g.nrows g.ncols c = true)
+    {fd : Int} (hfd : g.flowdir[c.toNat]? = some fd) (h0 : fd ≠ 0) (hmem : fd ∉ g.codes) : dn g c = -1 := by
+  unfold dn downstream
+  rw [if_pos hv, hfd]
+  simp only [if_neg h0]
+  exact downScan_not_mem _ _ _ _ _ _ _ hmem
+
+/-- a code of the table sends the cell to the neighbour at the position of that code in the 3x3 table
+(its last position, should the table repeat a code): a cell of the grid, or `-1` when that neighbour is off the grid -/
+theorem dn_of_code {g : FlowGrid} (hg : WF g) {c : Int} (hv : validCell g.nrows g.ncols c = true)
+    {fd : Int} (hfd : g.flowdir[c.toNat]? = some fd) (h0 : fd ≠ 0) {k : Nat} (hk : g.codes[k]? = some fd)
+    (hlast : ∀ k', k < k' → g.codes[k']? ≠ some fd) : dn g c = neighbour g.nrows g.ncols c k := by
+  unfold dn downstream
+  rw [if_pos hv, hfd]
+  simp only [if_neg h0]
+  rw [downScan_last _ _ _ _ _ _ _ k hk hlast, Nat.zero_add]
+
+/-- a terminal cell is a sink, or its code is not in the table / points off the grid; every other cell drains
+into a cell of the grid, one of its eight neighbours -/
+theorem dn_cases {g : FlowGrid} (hg : WF g) (hcodes : g.codes.length = 9) {c : Int}
+    (hv : validCell g.nrows g.ncols c = true) :
+    dn g c = -2 ∨ dn g c = -1 ∨
+      (validCell g.nrows g.ncols (dn g c) = true ∧ ∃ k, k < 9 ∧ k ≠ 4 ∧ neighbour g.nrows g.ncols c k = dn g c) := by
+  rcases dn_neg_or_valid hg hv with h | h | h
+  · exact Or.inl h
+  · exact Or.inr (Or.inl h)
+  · refine Or.inr (Or.inr ⟨h, ?_⟩)
+    have h0 := (validCell_iff.1 h).1
+    obtain ⟨k, hk, hkn⟩ := dn_is_neighbour hg hcodes hv h0
+    refine ⟨k, hk, ?_, hkn⟩
+    rintro rfl
+    have : neighbour g.nrows g.ncols c 4 = -1 := by
+      rw [neighbour_eq_neg_one_iff]; left; decide
+    omega
+
+/-! ### 4. a draining cell holds its own value plus the values of the cells draining through it -/
+
+/-- any value type with an addition (IEEE doubles included): the result is the left-to-right fold, in
+increasing source-cell order, that adds `F u` for every cell `u` strictly upstream of `c` -/
+theorem accumulate_eq_fold {α : Type} [Add α] {g : FlowGrid} (hg : WF g) (hr : 1 ≤ g.nrows) {m : Int}
+    (hm : 1 ≤ capOf g m) (hT : AllTerminate g (fuelOf (capOf g m))) (nodata : α) {field : Array α} {F : Nat → α}
+    (hF : Rep g.ntot.toNat field F) {acc : Array α} (hacc : accumulate g m nodata field = .ok acc)
+    {c : Int} (hv : validCell g.nrows g.ncols c = true) (hd : 0 ≤ dn g c) :
+    acc[c.toNat]? = some ((List.range g.ntot.toNat).foldl
+      (fun s (u : Nat) => if onPath g (fuelOf (capOf g m)) (u : Int) c then s + F u else s) (F c.toNat)) := by
+  obtain ⟨acc', h1, h2⟩ := accumulate_rep hg hr hm nodata hF
+  rw [hacc] at h1
+  cases h1
+  rw [h2.2 _ (lt_of_valid hv).1, final_value hT nodata F F hv, if_neg (by omega)]
+  rfl
+
+/-- `onPath` in the fold above means "some positive number of downstream steps leads from `u` to `c`" -/
+theorem onPath_iff_drains {g : FlowGrid} {fuel : Nat} (hT : AllTerminate g fuel) {u c : Int}
+    (hu : validCell g.nrows g.ncols u = true) (hc : 0 ≤ c) :
+    onPath g fuel u c = true ↔ ∃ k, 1 ≤ k ∧ iterDn g k u = c :=
+  onPath_iff_exists (validCell_iff.1 hu).1 hc (hT u hu)
+
+/-- commutative monoid (exact arithmetic): the accumulated value of a draining cell is the sum of the field over
+the cell and every cell draining through it -/
+theorem accumulate_eq_sum {α : Type} [AddCommMonoid α] {g : FlowGrid} (hg : WF g) (hr : 1 ≤ g.nrows) {m : Int}
+    (hm : 1 ≤ capOf g m) (hT : AllTerminate g (fuelOf (capOf g m))) (nodata : α) {field : Array α} {F : Nat → α}
+    (hF : Rep g.ntot.toNat field F) {acc : Array α} (hacc : accumulate g m nodata field = .ok acc)
+    {c : Int} (hv : validCell g.nrows g.ncols c = true) (hd : 0 ≤ dn g c) :
+    acc[c.toNat]? = some (∑ u ∈ drainsThrough g c, F u) := by
+  rw [accumulate_eq_fold hg hr hm hT nodata hF hacc hv hd, foldl_if_eq_sum]
+  obtain ⟨h1, h2⟩ := lt_of_valid hv
+  obtain ⟨e1, e2⟩ := drainsThrough_eq_insert hT h1
+  rw [h2] at e1 e2
+  rw [e1, Finset.sum_insert e2]
+
+/-- default unit field: the accumulated value of a draining cell is the number of cells draining through it -/
+theorem accumulateUnit_eq_card {α : Type} [AddCommMonoidWithOne α] {g : FlowGrid} (hg : WF g) (hr : 1 ≤ g.nrows)
+    {m : Int} (hm : 1 ≤ capOf g m) (hT : AllTerminate g (fuelOf (capOf g m))) (nodata : α)
+    {acc : Array α} (hacc : accumulateUnit g m nodata = .ok acc)
+    {c : Int} (hv : validCell g.nrows g.ncols c = true) (hd : 0 ≤ dn g c) :
+    acc[c.toNat]? = some (((drainsThrough g c).card : Nat) : α) := by
+  have hF : Rep g.ntot.toNat (Array.replicate g.flowdir.size (1 : α)) (fun _ => 1) := by
+    refine ⟨by rw [Array.size_replicate, hg.size_eq], fun j hj => ?_⟩
+    rw [Array.getElem?_replicate, if_pos (by rw [hg.size_eq]; exact hj)]
+  rw [accumulate_eq_sum hg hr hm hT nodata hF hacc hv hd, Finset.sum_const, nsmul_one]
+
+/-! ### 5. local recurrence: own contribution plus the accumulated values of the direct upstream cells -/
+
+theorem accumulate_recurrence {α : Type} [AddCommMonoid α] {g : FlowGrid} (hg : WF g) (hr : 1 ≤ g.nrows) {m : Int}
+    (hm : 1 ≤ capOf g m) (hT : AllTerminate g (fuelOf (capOf g m))) (nodata : α) {field : Array α} {F : Nat → α}
+    (hF : Rep g.ntot.toNat field F) {acc : Array α} (hacc : accumulate g m nodata field = .ok acc)
+    {A : Nat → α} (hA : Rep g.ntot.toNat acc A)
+    {c : Int} (hv : validCell g.nrows g.ncols c = true) (hd : 0 ≤ dn g c) :
+    A c.toNat = F c.toNat + ∑ u ∈ directUp g c, A u := by
+  obtain ⟨h1, h2⟩ := lt_of_valid hv
+  have hval : ∀ u : Nat, u < g.ntot.toNat → 0 ≤ dn g (u : Int) → A u = ∑ x ∈ drainsThrough g (u : Int), F x := by
+    intro u hu hdu
+    have := accumulate_eq_sum hg hr hm hT nodata hF hacc (valid_of_lt hu) hdu
+    rw [Int.toNat_natCast, hA.2 u hu] at this
+    exact Option.some.inj this
+  have hc := hval c.toNat h1 (by rw [h2]; exact hd)
+  rw [h2] at hc
+  rw [hc]
+  obtain ⟨e1, e2, e3⟩ := drainsThrough_eq_biUnion hT h1
+  rw [h2] at e1 e2 e3
+  rw [e1, Finset.sum_insert e2, Finset.sum_biUnion e3]
+  congr 1
+  apply Finset.sum_congr rfl
+  intro u hu
+  rw [mem_directUp] at hu
+  exact (hval u hu.1 (by rw [hu.2]; exact (validCell_iff.1 hv).1)).symm
+
+/-- the direct upstream cells of `c` are among its eight neighbours: `u` sits at the position mirrored
+(`8 - k`) to the one its flow direction points to -/
+theorem directUp_neighbour {g : FlowGrid} (hg : WF g) (hcodes : g.codes.length = 9) {c : Int}
+    (hv : validCell g.nrows g.ncols c = true) {u : Nat} (hu : u ∈ directUp g c) :
+    ∃ k, k < 9 ∧ k ≠ 4 ∧ neighbour g.nrows g.ncols c k = (u : Int) := by
+  rw [mem_directUp] at hu
+  have huv : validCell g.nrows g.ncols (u : Int) = true := valid_of_lt hu.1
+  have hc0 := (validCell_iff.1 hv).1
+  obtain ⟨k, hk, hkn⟩ := dn_is_neighbour hg hcodes huv (by rw [hu.2]; exact hc0)
+  rw [hu.2] at hkn
+  have hmir := neighbour_mirror hg.ncols_pos huv hk hkn (by omega)
+  refine ⟨8 - k, by omega, ?_, hmir⟩
+  intro h4
+  have hk4 : k = 4 := by omega
+  subst hk4
+  have : neighbour g.nrows g.ncols (u : Int) 4 = -1 := by
+    rw [neighbour_eq_neg_one_iff]; left; decide
+  omega
+
+/-! ### 6. headline: acyclic grid, default limit -/
+
+/-- on any flow-direction grid without cycles, run with the default limit, the call succeeds; every cell that
+drains nowhere holds the no-data value and every other cell holds the sum of the field over the cells draining
+through it -/
+theorem accumulate_acyclic_default {α : Type} [AddCommMonoid α] {g : FlowGrid} (hg : WF g) (hr : 1 ≤ g.nrows)
+    (hnc : NoCycle g) (nodata : α) {field : Array α} {F : Nat → α} (hF : Rep g.ntot.toNat field F) :
+    ∃ acc, accumulate g (-1) nodata field = .ok acc ∧ acc.size = g.ntot.toNat ∧
+      ∀ c : Int, validCell g.nrows g.ncols c = true →
+        acc[c.toNat]? = some (if dn g c < 0 then nodata else ∑ u ∈ drainsThrough g c, F u) := by
+  have hcap : 1 ≤ capOf g (-1) := by
+    unfold capOf; simp only [if_true]
+    have := hg.ncols_pos
+    nlinarith
+  have hT := allTerminate_default hg hnc
+  obtain ⟨acc, h1, h2⟩ := accumulate_rep hg hr hcap nodata hF
+  refine ⟨acc, h1, h2.1, fun c hv => ?_⟩
+  split
+  · rename_i hd; exact accumulate_terminal hg hr hcap hT nodata hF h1 hv hd
+  · rename_i hd; exact accumulate_eq_sum hg hr hcap hT nodata hF h1 hv (by omega)
+
+/-! ### 7. the defect of the pinned kernel: right exactly because the field was uniform -/
+
+/-- the pinned kernel (adds the value of the visited cell instead of the source cell's) computes the same
+result as the repaired one on every spatially uniform field — which is all the pinned tests used -/
+theorem cAccumulatePinned_eq_of_uniform {α : Type} [Add α] {g : FlowGrid} (hg : WF g) (m : Int) (nodata v : α)
+    {field : Array α} (hF : Rep g.ntot.toNat field (fun _ => v)) (acc0 : Array α) :
+    cAccumulatePinned g m nodata field acc0 = cAccumulate g m nodata field acc0 := by
+  unfold cAccumulatePinned cAccumulate
+  split
+  · rfl
+  · split
+    · rfl
+    · have key : ∀ (l : List Nat), (∀ i ∈ l, i < g.ntot.toNat) → ∀ acc : Array α,
+          accLoopPinned g field nodata (fuelOf m) l acc = accLoop g field nodata (fuelOf m) l acc := by
+        intro l
+        induction l with
+        | nil => intro _ _; rfl
+        | cons i rest ih =>
+          intro hl acc
+          unfold accLoopPinned accLoop
+          have hi := hl i List.mem_cons_self
+          rw [walkPinned_eq_walk hg hF hi (fuelOf m) (valid_of_lt hi)]
+          cases walk g field nodata i (fuelOf m) (i : Int) acc with
+          | error e => rfl
+          | ok acc' => exact ih (fun k hk => hl k (List.mem_cons_of_mem _ hk)) acc'
+      exact key _ (fun i hi => List.mem_range.1 hi) acc0
+
+/-! ### non-vacuity: a concrete non-trivial grid satisfying every hypothesis, and the finding -/
+
+/-- 2x3 grid, FLOWDIRCODE of grid.py; cells 0 → 1 → 2 (exit east), 3 → 1 (north-east), 4 → 1 (north), 5 sink -/
+def gEx : FlowGrid := ⟨2, 3, [32, 64, 128, 16, 0, 1, 8, 4, 2], #[1, 1, 1, 128, 64, 0]⟩
+
+example : WF gEx := ⟨by decide, by decide⟩
+example : AllTerminate gEx (fuelOf (capOf gEx (-1))) := allTerminate_of_B (by decide)
+example : NoCycle gEx := noCycle_of_allTerminate (allTerminate_of_B (fuel := 7) (by decide))
+example : gEx.codes.length = 9 := rfl
+example : validCell gEx.nrows gEx.ncols 1 = true ∧ 0 ≤ dn gEx 1 ∧ dn gEx 2 < 0 := by decide
+example : gEx.flowdir[(3 : Int).toNat]? = some 128 ∧ gEx.codes[2]? = some 128 ∧ dn gEx 3 = 1 ∧
+    neighbour gEx.nrows gEx.ncols 3 2 = 1 := by decide
+/-- field 5, 1, 7, 2, 3, 4: cell 1 receives 5 + 1 + 2 + 3 = 11, cell 2 and 5 are terminal -/
+example : accumulate gEx (-1) (-9999 : Int) #[5, 1, 7, 2, 3, 4] = .ok #[5, 11, -9999, 2, 3, -9999] := by decide
+/-- the pinned kernel on the same input: cell 1 receives its own value once per upstream cell -/
+example : cAccumulatePinned gEx 6 (-9999 : Int) #[5, 1, 7, 2, 3, 4] #[5, 1, 7, 2, 3, 4]
+    = .ok #[5, 4, -9999, 2, 3, -9999] := by decide
+/-- a 2-cycle (cells 0 ⇄ 1) terminates at the cap -/
+example : accumulate ⟨1, 2, [32, 64, 128, 16, 0, 1, 8, 4, 2], #[1, 16]⟩ (-1) (-1 : Int) #[1, 1] = .ok #[4, 4] := by
+  decide
 
 end HydroVerif.C11
